@@ -4,6 +4,7 @@
 -/
 import ClairModel.Lib.Sm
 import ClairModel.Proofs.IndexerFF
+import ClairModel.Proofs.IndexerGC
 
 namespace ClairModel.Indexer
 
@@ -43,6 +44,7 @@ def Admissible (sem : Sem) : World → List Op → Prop
   | wd, .index m o d :: rest =>
     (d = true ∨ FF o ∨ (NoCommitErr o ∧ wd.st.manifestScanned m wd.cfg.scanners = false)) ∧
     Admissible sem (step sem wd (.index m o d)).1 rest
+  | wd, .delete ms :: rest => Admissible sem (step sem wd (.delete ms)).1 rest
 
 theorem good_run (sem : Sem) : ∀ (ops : List Op) (wd : World), Good sem wd.cfg wd.st → Admissible sem wd ops →
     Good sem wd.cfg (Sm.run (step sem) wd ops).st ∧ (Sm.run (step sem) wd ops).cfg = wd.cfg
@@ -62,6 +64,8 @@ theorem good_run (sem : Sem) : ∀ (ops : List Op) (wd : World), Good sem wd.cfg
         · exact good_index_ff sem o wd.cfg m wd.st hc hg
         · exact good_index_faulty sem o wd.cfg m wd.st false hg hc.1 hc.2
     exact good_run sem rest (step sem wd (.index m o d)).1 hg' ha
+  | .delete ms :: rest, wd, hg, ha =>
+    good_run sem rest (step sem wd (.delete ms)).1 (good_deleteManifests ms hg) ha
 
 /-! ## The scan log over fault-free histories -/
 
@@ -82,6 +86,7 @@ def FFOps : List Op → Prop
   | [] => True
   | .config c :: rest => c.scanners ≠ [] ∧ FFOps rest
   | .index _ o d :: rest => FF o ∧ d = false ∧ FFOps rest
+  | .delete _ :: rest => FFOps rest
 
 /-- World invariant of fault-free histories. -/
 structure WScans (sem : Sem) (wd : World) : Prop where
@@ -112,5 +117,37 @@ theorem scans_run (sem : Sem) : ∀ (ops : List Op) (wd : World), FFOps ops → 
       rcases List.mem_append.1 hx with hx | hx
       · exact hsc.marked x hx
       · exact hsp.le.scannedLayer x (h.scans.marked x hx)
+  | .delete ms :: rest, wd, hff, h => by
+    apply scans_run sem rest _ hff
+    refine ⟨Store.inv_deleteManifests ms h.inv, h.nonempty, ?_, ?_⟩
+    · exact List.Nodup.sublist List.filter_sublist h.scans.nodup
+    · intro x hx
+      have := (List.mem_filter.1 hx).2
+      exact of_decide_eq_true this
+
+end ClairModel.Indexer
+
+namespace ClairModel.Indexer
+
+/-! ## Deleting the manifest repairs whatever a failed attempt left behind -/
+
+/-- After an Index call on `m` under ANY oracle (lost replies and attempts on
+    an already indexed manifest included) the store is good again once `m` is
+    deleted: the other manifests were not touched, and `m` is forgotten. -/
+theorem good_delete_after_index (sem : Sem) (o : Oracle) (cfg : Cfg) (m : Manifest) (st : Store) (d : Bool)
+    (hg : Good sem cfg st) : Good sem cfg ((index sem o cfg m st d).st.deleteManifest m) := by
+  have hsp := index_spec sem o cfg m st d hg.inv
+  refine ⟨Store.inv_deleteManifest hsp.inv m, hg.nonempty, ?_⟩
+  intro m' hsc
+  obtain ⟨s, hs⟩ := List.exists_mem_of_ne_nil _ hg.nonempty
+  have hms := (Store.manifestScanned_iff _ _ _).1 hsc
+  have hne : m' ≠ m := by
+    intro heq
+    subst heq
+    exact (Store.deleteManifest_forgets hsp.inv m').2.1 s (hms s hs)
+  have hfr := Store.deleteManifest_frame (index sem o cfg m st d).st m m' hne
+  rw [hfr.1, hsp.frame.report m' hne]
+  apply hg.reports
+  exact (Store.manifestScanned_iff _ _ _).2 fun s hs => (hsp.frame.scanned m' s hne).1 ((hfr.2.1 s).1 (hms s hs))
 
 end ClairModel.Indexer
